@@ -72,7 +72,7 @@ func runC18(c *Ctx) Info {
 		return Info{Explanation: "failed"}
 	}
 	a := e.A
-	c.C.Floor("codec-types", len(e.EP.CodecTypes)-countControls(c, e), 10)
+	c.C.Floor("codec-types", len(e.EP.CodecTypes)-countControls(c, e), 6)
 	c.C.Floor("api-roots", len(e.EP.API), 300)
 
 	nGlobalDis, nRecvDis, nParDis := 0, 0, 0
@@ -144,7 +144,16 @@ func runC18(c *Ctx) Info {
 					w = append(w, a.Why(mu.Map, ef.Ctx, ef.Loc)...)
 				}
 			}
-			c.add("PARAMS-RO", ef.Fn, construct, report.Violated, c.P.Pos(ef.Instr.Pos()),
+			// identity of the finding: the codec method through which the write is reached and what is
+			// written — not the helper or closure that happens to contain the call today
+			keyFn := ef.Fn
+			if call, ok := ef.Instr.(ssa.CallInstruction); ok && call.Common().IsInvoke() && call.Common().Method.Name() == "SetParameter" {
+				construct = "SetParameter(" + describeConstArg(call) + ") on the caller's parameters object"
+				if m := c.codecMethodReaching(e, ef.Fn); m != nil {
+					keyFn = m
+				}
+			}
+			c.add("PARAMS-RO", keyFn, construct, report.Violated, c.P.Pos(ef.Instr.Pos()),
 				fmt.Sprintf("%s on the caller's parameters object (%s): a definite write on every call, racing between calls that share the object", ef.Kind, ef.Note), w...)
 			continue
 		}
@@ -281,6 +290,39 @@ func (c *Ctx) sharedResultRule(e *Eff) int {
 		}
 	}
 	return n
+}
+
+// describeConstArg: the first argument of the call if it is a constant (the parameter name).
+func describeConstArg(call ssa.CallInstruction) string {
+	args := call.Common().Args
+	if len(args) > 0 {
+		if k, ok := args[0].(*ssa.Const); ok && k.Value != nil {
+			return k.Value.ExactString()
+		}
+	}
+	return "…"
+}
+
+// codecMethodReaching: the Encode / Decode method of a registered codec type from which fn is
+// reached, when there is exactly one such codec type (the smallest name wins among its methods).
+func (c *Ctx) codecMethodReaching(e *Eff, fn *ssa.Function) *ssa.Function {
+	var cands []*ssa.Function
+	for _, m := range append(append([]*ssa.Function{}, e.EP.CodecEnc...), e.EP.CodecDec...) {
+		if m == fn || c.P.Reachable([]*ssa.Function{m})[fn] {
+			cands = append(cands, m)
+		}
+	}
+	if len(cands) == 0 {
+		return nil
+	}
+	sort.Slice(cands, func(i, j int) bool { return cands[i].String() < cands[j].String() })
+	recv := cands[0].Signature.Recv().Type().String()
+	for _, m := range cands {
+		if m.Signature.Recv().Type().String() != recv {
+			return nil
+		}
+	}
+	return cands[0]
 }
 
 func countControls(c *Ctx, e *Eff) int {
